@@ -18,6 +18,15 @@
 (*   (RoundTrip / replay).                                                   *)
 (* Strict adds the code's lenient decoder as the model has it: every cookie  *)
 (*   that decodes to a live issued cipher text loads, and is not cleared.    *)
+(* Key schedule: a Save may carry ref = what an independent implementation   *)
+(*   (libcrypto HMAC / AES-CBC, the documented derivation of the working     *)
+(*   keys from the configured secret) reads from the cookie: it must open to *)
+(*   the saved payload and deadline.  Cookies sealed by that reference       *)
+(*   implementation from the same key material are Save events too (by =     *)
+(*   "reference") and must load.  rv = verdict of the reference on the       *)
+(*   presented cookie: ok => rv.  Forgeries (cipher texts re-signed under    *)
+(*   keys that do not depend on the secret) are ordinary Load/Dec events:    *)
+(*   they decode to no issued cipher text, so they must be refused, cleared. *)
 (* Save: first character 'C'; Decode(tx) equals the raw cipher text when the *)
 (*   harness saw it; under an encrypting configuration the cipher text       *)
 (*   differs from every earlier one (IvFresh) and does not contain the       *)
@@ -79,6 +88,9 @@ TSave ==
     /\ Ev.c0 = 67
     /\ DecodeOK(Len(Ev.tx))
     /\ Has(Ev, "cipher") => Decode(Ev.tx) = Ev.cipher
+    \* key schedule: the cookie opens, to the saved payload and deadline, under the working keys an
+    \* independent implementation derives from the configured secret as documented
+    /\ Has(Ev, "ref") => (Ev.ref.ok /\ Ev.ref.id = Ev.id /\ Ev.ref.dl = Ev.dl)
     /\ Ev.cfg \in aes =>
           /\ ~Ev.leak
           /\ \A r \in issued[Ev.cfg] : ~DecEq(Ev.tx, TxOf(r))
@@ -100,6 +112,7 @@ TLoad ==
     /\ LET live == { r \in Matching(Ev.cfg) : r.dl >= now } IN
        /\ AuthFreshP(Ev.ok, Ev.id, Ev.dl, live, now)
        /\ (~Ev.ok /\ Ev.c0 # -1) => Ev.cleared
+       /\ (Has(Ev, "rv") /\ Ev.ok) => Ev.rv           \* nothing loads that the reference keys do not authenticate
        /\ (\E r \in live : SameText(r)) => Ev.ok
        /\ Strict => ((live # {} => Ev.ok) /\ (Ev.ok => ~Ev.cleared))
     /\ res' = [NoRes EXCEPT !.op = "load"]
@@ -110,6 +123,7 @@ TDec ==
     /\ Is("Dec")
     /\ LET m == Matching(Ev.cfg) IN
        /\ AuthFreshP(Ev.ok, Ev.id, Ev.dl, m, Ev.dl)
+       /\ (Has(Ev, "rv") /\ Ev.ok) => Ev.rv
        /\ (\E r \in m : SameText(r)) => Ev.ok
        /\ Strict => (m # {} => Ev.ok)
     /\ res' = [NoRes EXCEPT !.op = "dec"]
